@@ -13,7 +13,7 @@ PY
 while read PROP COMMIT KEY; do
   W=/tmp/revfix-$$-$COMMIT
   git -C /repo worktree add --detach "$W" HEAD >/dev/null 2>&1
-  if git -C /repo show "$COMMIT" -- src include external | git -C "$W" apply -R 2>/dev/null; then
+  if git -C /repo show "$COMMIT" -- src include external | git -C "$W" apply -R 2>/dev/null || git -C /repo show "$COMMIT" -- src include external | git -C "$W" apply -R --3way 2>/dev/null; then
     OUT=$(VERIF_REPO="$W" ./check "$PROP" --tier "$TIER" 2>&1)
     N=$(echo "$OUT" | grep -c '^VIOLATION')
     echo "$PROP $COMMIT $KEY reverted -> violations_reported=$N $(echo "$OUT" | grep -E "^C[0-9]+ tier|CHECK-BROKEN" | tail -1)"
